@@ -134,6 +134,9 @@ Section Peers.
   Hypothesis Hscalar : scalar_table ct.
   Hypothesis Hg : tgb ct = true.
   Hypothesis no_dnc_attr : forall k sp, In k ct -> In sp (c_attrs k) -> a_dnc sp = false.
+  (* every attribute is init-enabled; no class-dict overrides (no plain subclasses) *)
+  Hypothesis all_init : forall k sp, In k ct -> In sp (c_attrs k) -> a_init sp = true.
+  Hypothesis no_overrides : forall k, In k ct -> c_overrides k = [].
 
   Let wf_owner := fun c0 k0 => tgb_owner ct c0 k0 Hg.
   Local Opaque exec.
@@ -453,11 +456,11 @@ Section Peers.
   Qed.
 
   (* obj.with_<a>(<scalar>, _inplace=True), obj.reset_<a>(_inplace=True), obj.reset(_inplace=True) *)
-  Definition inplace_helper_ok (hp : helper) : Prop :=
+  Definition inplace_helper_ok0 (hp : helper) : Prop :=
     match hp with HWith _ | HReset _ | HResetTop => True | _ => False end.
 
   Lemma helper_inplace_shape l hp h s r s' :
-    h_inplace h = true -> inplace_helper_ok hp ->
+    h_inplace h = true -> inplace_helper_ok0 hp ->
     Forall val_nonref (h_pos h) -> h_kw h = None ->
     run_helper ct l hp h s = (r, s') -> inplace_shape l s s'.
   Proof.
@@ -525,6 +528,128 @@ Section Peers.
       cbn [ret negb orb] in E. eapply Hloop; eauto.
   Qed.
 
+  (* ---------- update_<a> / transform_<a> in place: the current value is read from the receiver's own
+     dictionary (it holds every defaulted attribute: hd), never from a class-level object ---------- *)
+  Lemma getattr_hd l c a s v :
+    hd ct l c s -> a <> A_INITIALIZING -> fst (getattr_default ct l a s) = Ok v ->
+    okv (length (heap s)) (RL (heap s) l) v.
+  Proof.
+    intros [[d Hl] Hh] Ha. unfold getattr_default. rewrite (bind_ok _ _ _ _ _ (read_inst_at l s c d Hl)). cbn [fst snd].
+    destruct (assoc a d) as [v0|] eqn:E.
+    - cbn [ret fst]. intro H; inversion H; subst v0. destruct v; simpl; auto. right.
+      eapply reach_step; [constructor|exact Hl|]. simpl. apply in_vrefs. apply in_map_iff. exists (a, VRef l0).
+      split; [reflexivity|]. unfold assoc in E.
+      destruct (find (fun p : nat * val => fst p =? a) d) as [[x y]|] eqn:F; simpl in E; [|discriminate].
+      inversion E; subst. apply find_some in F. destruct F as [F1 F2]. simpl in F2. apply Nat.eqb_eq in F2. subst. exact F1.
+    - unfold bind, cls_of. destruct (lookup_cls ct c) as [k|] eqn:Hc; [|discriminate].
+      cbn [ret fst]. intro H; inversion H; subst v. clear H.
+      destruct (lookup_cls_In _ _ _ Hc) as [Hkin _]. unfold class_default. rewrite (no_overrides k Hkin). cbn [assoc find option_map].
+      destruct (lookup_attr k a) as [sp|] eqn:Esp; [|exact I].
+      destruct (a_default sp) eqn:Ed; simpl; auto. exfalso.
+      destruct (lookup_attr_In _ _ _ Esp) as [Hspin _].
+      assert (K : keep_init ct c a).
+      { split; [exact Ha|]. exists k, sp. split; [exact Hc|]. split; [exact Esp|]. split; [|apply all_init with k; auto].
+        unfold has_default. rewrite (no_overrides k Hkin). cbn [assoc find option_map]. rewrite Ed. destruct (a_factory sp); reflexivity. }
+      destruct (Hh a K) as [d' [Hl' Hd']]. rewrite Hl in Hl'. inversion Hl'; subst d'. congruence.
+  Qed.
+
+  (* v <- mutate_value(old, ...) ;; with_<a>(v) in place *)
+  Lemma mv_then_with_shape l c d k sp m s r s' :
+    nth_error (heap s) l = Some (OInst c d) -> lookup_cls ct c = Some k ->
+    spec_ok (length (heap s)) (RL (heap s) l) sp ->
+    mv_ok ct (length (heap s)) (RL (heap s) l) NoW m ->
+    (forall v, post (length (heap s)) (RL (heap s) l) (KMutateValue m) v -> okv (length (heap s)) (RL (heap s) l) v) ->
+    (v <- exec ct XFUEL (KMutateValue m) ;; with_attr ct l sp v None true) s = (r, s') ->
+    inplace_shape l s s'.
+  Proof.
+    intros Hl Hc Hsp Hm Hpost Hrun. set (h0 := heap s) in *. set (b := length h0) in *.
+    unfold inplace_shape. fold h0. fold b.
+    assert (I0 : sinv b (RL h0 l) NoW h0 s) by (apply sinv_start; reflexivity).
+    assert (Hlb : l < b) by (apply nth_error_Some; congruence).
+    destruct (exec_sepf XFUEL b h0 l (KMutateValue m) Hm s I0) as [I1 F1]. unfold bind at 1 in Hrun.
+    destruct (exec ct XFUEL (KMutateValue m) s) as [[v|e] s1] eqn:E; simpl in I1, F1.
+    2:{ inversion Hrun; subst. now apply sinv_ishape. }
+    unfold with_attr in Hrun.
+    eapply (prep_write_ishape (exec ct XFUEL) l (inv_ishape XFUEL l) b h0 Hlb (a_name sp) c d k); eauto.
+    apply (prepare_attr_value_sep ct b (RL h0 l) NoW h0 (RL_closed b h0 l) (exec ct XFUEL) (exec_sepf XFUEL b h0 l) sp l v None);
+      [exact Hsp|apply Hpost; exact F1|exact I].
+  Qed.
+
+  Lemma pos0_okv b A h : Forall val_nonref (h_pos h) -> okv b A (pos0 h).
+  Proof.
+    intro H. apply nonref_okv. unfold pos0. destruct (nth_in_or_default 0 (h_pos h) VMissing) as [Hin|E0]; [|rewrite E0; exact I].
+    rewrite Forall_forall in H. auto.
+  Qed.
+
+  Lemma update_transform_inplace_shape l c hp a h s r s' :
+    (hp = HUpdate a \/ hp = HTransform a) -> hd ct l c s -> a <> A_INITIALIZING ->
+    h_inplace h = true -> Forall val_nonref (h_pos h) -> h_kw h = None -> h_kwfn h = [] -> ofn_scalar (h_fn h) ->
+    run_helper ct l hp h s = (r, s') -> inplace_shape l s s'.
+  Proof.
+    intros Hhp Hhd Ha Hi Hpos Hkw Hkwfn Hfn Hrun. unfold run_helper in Hrun.
+    destruct (negb (h_if h)); [inversion Hrun; subst; apply ishape_refl|].
+    pose proof Hhd as [[d Hl] _].
+    assert (Hstart : forall (K : cls * attr_spec -> val -> M val) r0 s0,
+              (forall k sp old, lookup_cls ct c = Some k -> lookup_attr k a = Some sp ->
+                 okv (length (heap s)) (RL (heap s) l) old ->
+                 forall r1 s1, K (k, sp) old s = (r1, s1) -> inplace_shape l s s1) ->
+              (rr <- spec_for ct l a ;; old <- current_value ct l (snd rr) true (is_sentinel (pos0 h)) ;; K rr old) s = (r0, s0) ->
+              inplace_shape l s s0).
+    { intros K r0 s0 HK H. unfold spec_for in H.
+      unfold bind at 1 2 in H. rewrite (read_inst_at l s c d Hl) in H. cbn [fst snd] in H.
+      destruct (lookup_cls ct c) as [k|] eqn:Hc.
+      2:{ unfold cls_of, bind in H. rewrite Hc in H. inversion H; subst. apply ishape_refl. }
+      unfold bind at 1 in H. rewrite (cls_of_at ct s c k Hc) in H.
+      destruct (lookup_attr k a) as [sp|] eqn:Ea; [|inversion H; subst; apply ishape_refl].
+      cbn [ret snd] in H. unfold current_value in H. unfold bind at 1 2 in H.
+      destruct (lookup_attr_In _ _ _ Ea) as [_ Hname]. rewrite Hname in H.
+      pose proof (getattr_default_pure ct l a s) as P. pose proof (getattr_hd l c a s) as G.
+      destruct (getattr_default ct l a s) as [[old|e] s2]; simpl in P; subst s2; [|inversion H; subst; apply ishape_refl].
+      change (true || a_dnc sp || negb (is_sentinel (pos0 h))) with true in H. cbn [ret] in H.
+      eapply (HK k sp old); eauto. }
+    destruct Hhp as [->| ->].
+    - (* update_<a> *)
+      destruct (pos0 h) eqn:Ep; try (inversion Hrun; subst; apply ishape_refl; fail);
+        (rewrite Hi in Hrun; rewrite <- Ep in Hrun; eapply Hstart; [|exact Hrun]; intros k sp old Hc Ea Hold r1 s1 H1; cbv beta in H1;
+         eapply (mv_then_with_shape l c d k sp); [exact Hl|exact Hc|eapply lookup_attr_ok; eauto using RL_table| | |exact H1];
+         [unfold mv_ok; simpl; split; [apply pos0_okv; exact Hpos|]; split; [intros _; left; exact Hold|];
+          split; [exact I|]; split; [rewrite Hkw; exact I|]; split; [exact I|]; split; [apply ats_ok_nil|discriminate]
+         |simpl; intros v [Hv|[-> _]]; [exact Hv|exact Hold]]).
+    - (* transform_<a> *)
+      rewrite Hi in Hrun. eapply Hstart with (K := fun rr old =>
+          v <- exec ct XFUEL (KMutateValue (mkmv old VMissing false PNone None
+                                     (Some (ctor_of_ty (a_ty (snd rr)))) (Some (a_ty (snd rr)))
+                                     (match h_fn h with Some f => Some (XFn f, None) | None => None end)
+                                     (h_kwfn h) false)) ;;
+          with_attr ct l (snd rr) v None true); [|exact Hrun].
+      intros k sp old Hc Ea Hold r1 s1 H1. cbv beta in H1. cbn [snd] in H1.
+      eapply (mv_then_with_shape l c d k sp); [exact Hl|exact Hc|eapply lookup_attr_ok; eauto using RL_table| | |exact H1].
+      + unfold mv_ok; simpl. split; [exact I|]. split; [intros _; left; exact Hold|]. split; [exact I|]. split; [exact I|].
+        split; [destruct (h_fn h); simpl in *; auto using fn_scalar_ok|]. split; [rewrite Hkwfn; apply ats_ok_nil|discriminate].
+      + simpl. intros v [Hv|[-> _]]; [exact Hv|exact Hold].
+  Qed.
+
+  Definition inplace_helper_ok (hp : helper) : Prop :=
+    match hp with
+    | HWith _ | HReset _ | HResetTop => True
+    | HUpdate a | HTransform a => a <> A_INITIALIZING
+    | _ => False
+    end.
+
+  Lemma helper_inplace_shape_all l c hp h s r s' :
+    hd ct l c s -> h_inplace h = true -> inplace_helper_ok hp ->
+    Forall val_nonref (h_pos h) -> h_kw h = None -> h_kwfn h = [] -> ofn_scalar (h_fn h) ->
+    run_helper ct l hp h s = (r, s') -> inplace_shape l s s'.
+  Proof.
+    intros Hhd Hi Hhp Hpos Hkw Hkwfn Hfn Hrun.
+    destruct hp; simpl in Hhp; try contradiction.
+    - eapply helper_inplace_shape; eauto. exact I.
+    - eapply (update_transform_inplace_shape l c (HUpdate a) a); eauto.
+    - eapply (update_transform_inplace_shape l c (HTransform a) a); eauto.
+    - eapply helper_inplace_shape; eauto. exact I.
+    - eapply helper_inplace_shape; eauto. exact I.
+  Qed.
+
   (* ---------- the alphabet ---------- *)
   Definition peer_op_ok (T : list nat) (o : op) : Prop :=
     match o with
@@ -533,7 +658,8 @@ Section Peers.
     | OpDelAttr x _ => In x T
     | OpHelper x hp h =>
         if h_inplace h
-        then In x T /\ inplace_helper_ok hp /\ Forall val_nonref (h_pos h) /\ h_kw h = None
+        then In x T /\ inplace_helper_ok hp /\ Forall val_nonref (h_pos h) /\ h_kw h = None /\
+             h_kwfn h = [] /\ ofn_scalar (h_fn h)
         else Forall val_nonref (h_pos h) /\ val_nonref (h_index h) /\
              match h_kw h with Some kw => Forall (fun p => val_nonref (snd p)) kw | None => True end /\
              h_kwfn h = [] /\ ofn_scalar (h_fn h) /\ plain_top_transform hp h
@@ -569,11 +695,12 @@ Section Peers.
   (* an in-place operation of the alphabet: nothing happened, or the receiver is a tracked root and
      the step has the shape above *)
   Lemma inplace_step_shape T roots o s r s' :
+    (forall x lx, In x T -> nth x roots VNone = VRef lx -> exists c, hd ct lx c s) ->
     peer_op_ok T o -> is_set o = true -> step ct roots o s = (r, s') ->
     exists x, In x T /\
       (s' = s \/ exists lx, nth x roots VNone = VRef lx /\ inplace_shape lx s s').
   Proof.
-    destruct o; simpl; intros Hok Hs Hrun; try discriminate.
+    intros Hhd. destruct o; simpl; intros Hok Hs Hrun; try discriminate.
     - destruct Hok as (Hx & Hv). exists x. split; [exact Hx|]. unfold bind in Hrun.
       destruct (nth x roots VNone) as [| | | |b0|z0|z0|z0|lx] eqn:Ex; try (simpl in Hrun; inversion Hrun; auto; fail).
       simpl loc_of in Hrun. cbn [ret] in Hrun.
@@ -586,10 +713,11 @@ Section Peers.
       destruct (exec ct XFUEL (KDelAttr lx a false false) s) as [r0 s2] eqn:E.
       assert (Hs2 : s' = s2) by (destruct r0; inversion Hrun; auto). subst s2.
       right. exists lx. split; [reflexivity|]. eapply delattr_inplace_shape; eauto.
-    - rewrite Hs in Hok. destruct Hok as (Hx & Hhp & Hpos & Hkw). exists x. split; [exact Hx|]. unfold bind in Hrun.
+    - rewrite Hs in Hok. destruct Hok as (Hx & Hhp & Hpos & Hkw & Hkwfn & Hfn). exists x. split; [exact Hx|]. unfold bind in Hrun.
       destruct (nth x roots VNone) as [| | | |b0|z0|z0|z0|lx] eqn:Ex; try (simpl in Hrun; inversion Hrun; auto; fail).
       simpl loc_of in Hrun. cbn [ret] in Hrun.
-      right. exists lx. split; [reflexivity|]. eapply helper_inplace_shape; eauto.
+      destruct (Hhd x lx Hx Ex) as [c Hc].
+      right. exists lx. split; [reflexivity|]. eapply helper_inplace_shape_all; eauto.
   Qed.
 
   (* ---------- the invariant ---------- *)
@@ -600,7 +728,8 @@ Section Peers.
                        nth x roots VNone = VRef lx -> nth y roots VNone = VRef ly -> lx <> ly) /\
     (forall x y lx ly z, In x T -> In y T ->
                          nth x roots VNone = VRef lx -> nth y roots VNone = VRef ly -> lx <> ly ->
-                         reach (heap s) lx z -> reach (heap s) ly z -> False).
+                         reach (heap s) lx z -> reach (heap s) ly z -> False) /\
+    (forall x l, In x T -> nth x roots VNone = VRef l -> exists c, hd ct l c s).
 
   Definition resv (r : res val) : val := match r with Ok v => v | Err _ => VNone end.
   Definition track (n : nat) (T : list nat) (o : op) : list nat :=
@@ -619,18 +748,26 @@ Section Peers.
     step ct roots o (mkst (heap s) 0 fa) = (r, s') ->
     PD s' (roots ++ [resv r]) (track (length roots) T o).
   Proof.
-    intros (P1 & P2 & P3 & P4) WF Hok Hrun.
+    intros (P1 & P2 & P3 & P4 & P5) WF Hok Hrun.
     set (s0 := mkst (heap s) 0 fa) in *. set (h0 := heap s). set (b := length h0).
     assert (I0 : sinv b NoA NoW h0 s0) by (apply sinv_start; reflexivity).
+    assert (P50 : forall x l, In x T -> nth x roots VNone = VRef l -> exists c, hd ct l c s0).
+    { intros x l Hx El. destruct (P5 x l Hx El) as [c Hc]. exists c. exact Hc. }
+    assert (P5' : forall x l, In x T -> nth x roots VNone = VRef l -> exists c, hd ct l c s').
+    { intros x l Hx El. destruct (P50 x l Hx El) as [c Hc]. exists c. eapply hd_stable; [|exact Hc].
+      pose proof (step_kext ct roots o s0) as K. rewrite Hrun in K. exact K. }
+    assert (P5'' : forall x l, In x T -> nth x (roots ++ [resv r]) VNone = VRef l -> exists c, hd ct l c s').
+    { intros x l Hx. rewrite nth_old by auto. apply P5'; auto. }
     destruct (is_set o) eqn:Eset.
     - (* in-place writes on a tracked instance *)
       rewrite (track_set _ _ _ Eset).
-      destruct (inplace_step_shape T roots o s0 r s' Hok Eset Hrun) as (x & Hx & Hcase).
+      destruct (inplace_step_shape T roots o s0 r s' P50 Hok Eset Hrun) as (x & Hx & Hcase).
       assert (Hsame : heap s' = h0 ->
                 PD s' (roots ++ [resv r]) T).
       { intro Hh. split; [intros y Hy; rewrite app_length; specialize (P1 y Hy); lia|].
         split; [intros y l Hy; rewrite nth_old by auto; rewrite Hh; apply P2; auto|].
         split; [intros y1 y2 l1 l2 H1 H2; rewrite !nth_old by auto; apply P3; auto|].
+        split; [|exact P5''].
         intros y1 y2 l1 l2 z H1 H2; rewrite !nth_old by auto; rewrite Hh; apply P4; auto. }
       destruct Hcase as [->|(lx & Ex & Hshape)]; [apply Hsame; reflexivity|].
       unfold inplace_shape in Hshape. change (heap s0) with h0 in Hshape. fold b in Hshape.
@@ -640,6 +777,7 @@ Section Peers.
       split; [intros y Hy; rewrite app_length; specialize (P1 y Hy); lia|].
       split; [intros y l Hy; rewrite nth_old by auto; intro Hl; specialize (P2 y l Hy Hl); fold h0 in P2; fold b in P2; lia|].
       split; [intros y1 y2 l1 l2 H1 H2; rewrite !nth_old by auto; apply P3; auto|].
+      split; [|exact P5''].
       intros y1 y2 l1 l2 z H1 H2. rewrite !nth_old by auto. intros E1 E2 Hne R1 R2.
       assert (Hb1 : l1 < b) by (apply (P2 y1 l1 H1 E1)). assert (Hb2 : l2 < b) by (apply (P2 y2 l2 H2 E2)).
       assert (Hother : forall y0 l0, In y0 T -> nth y0 roots VNone = VRef l0 -> l0 <> lx ->
@@ -671,23 +809,24 @@ Section Peers.
       { split; [intros y Hy; rewrite app_length; specialize (P1 y Hy); lia|].
         split; [intros y l Hy; rewrite nth_old by auto; intro Hl; specialize (P2 y l Hy Hl); fold h0 in P2; fold b in P2; lia|].
         split; [intros y1 y2 l1 l2 H1 H2; rewrite !nth_old by auto; apply P3; auto|].
+        split; [|exact P5''].
         intros y1 y2 l1 l2 z H1 H2. rewrite !nth_old by auto. intros E1 E2 Hne R1 R2.
         destruct (Hold y1 l1 z H1 E1 R1) as [R1' _]. destruct (Hold y2 l2 z H2 E2 R2) as [R2' _].
         eapply (P4 y1 y2 l1 l2 z); eauto. }
       destruct o; simpl track; try exact OldPD.
       (* a constructor call: the new root is tracked *)
-      destruct OldPD as (O1 & O2 & O3 & O4).
+      destruct OldPD as (O1 & O2 & O3 & O4 & O5).
       simpl in Hrun. simpl in Hok. destruct Hok as [Hkw Hpos].
-      assert (Hnew : forall l, resv r = VRef l -> b <= l /\ l < length (heap s')).
+      assert (Hnew : forall l, resv r = VRef l -> b <= l /\ l < length (heap s') /\ hd ct l c s').
       { intros l El. destruct r as [v|e]; [|discriminate]. simpl in El. subst v.
         simpl in Q. split; [destruct Q as [H|[]]; exact H|].
         assert (Hpos' : match pos with Some v => nu v | None => True end) by (destruct pos; tauto).
-        destruct (construct_holds ct c pos kw s0 _ _ Hg Hkw Hpos' Hrun) as [l' [El' [[d Hd] _]]].
-        inversion El'; subst l'. apply nth_error_Some. congruence. }
+        destruct (construct_holds ct c pos kw s0 _ _ Hg Hkw Hpos' Hrun) as [l' [El' Hhd']].
+        inversion El'; subst l'. split; [|exact Hhd']. destruct Hhd' as [[d Hd] _]. apply nth_error_Some. congruence. }
       split.
       { intros y [<-|Hy]; [rewrite app_length; simpl; lia|auto]. }
       split.
-      { intros y l [<-|Hy]; [rewrite nth_new; intro El; exact (proj2 (Hnew l El))|apply O2; exact Hy]. }
+      { intros y l [<-|Hy]; [rewrite nth_new; intro El; exact (proj1 (proj2 (Hnew l El)))|apply O2; exact Hy]. }
       split.
       { intros y1 y2 l1 l2 [<-|H1] [<-|H2] Hne; try congruence.
         - rewrite nth_new. rewrite nth_old by auto. intros E1 E2 ->.
@@ -695,6 +834,8 @@ Section Peers.
         - rewrite nth_new. rewrite nth_old by auto. intros E1 E2 ->.
           destruct (Hnew _ E2) as [Hge _]. specialize (P2 y1 l2 H1 E1). fold h0 in P2. fold b in P2. lia.
         - apply O3; auto. }
+      split.
+      2:{ intros y l [<-|Hy]; [rewrite nth_new; intro El; exists c; exact (proj2 (proj2 (Hnew l El)))|apply O5; exact Hy]. }
       intros y1 y2 l1 l2 z [<-|H1] [<-|H2].
       + intros E1 E2. congruence.
       + rewrite nth_new. rewrite nth_old by auto. intros E1 E2 Hne R1 R2.
@@ -775,6 +916,8 @@ Qed.
 Theorem ctor_peers_disjoint ct :
   (forall c k, lookup_cls ct c = Some k -> c_dnc k = false) -> scalar_table ct -> tgb ct = true ->
   (forall k sp, In k ct -> In sp (c_attrs k) -> a_dnc sp = false) ->
+  (forall k sp, In k ct -> In sp (c_attrs k) -> a_init sp = true) ->
+  (forall k, In k ct -> c_overrides k = []) ->
   forall ops s roots,
     ops_ok (length roots) [] ops -> run_wf ct s roots ops ->
     forall i j ci pi kwi fi cj pj kwj fj li lj,
@@ -786,10 +929,10 @@ Theorem ctor_peers_disjoint ct :
       forall z, reach (heap (fst (run_ops ct s roots ops))) li z ->
                 reach (heap (fst (run_ops ct s roots ops))) lj z -> False.
 Proof.
-  intros H1 H2 H3 H4 ops s roots Hok Hwf i j ci pi kwi fi cj pj kwj fj li lj Hi Hj Hne Ei Ej.
-  assert (Hpd0 : PD s roots []).
-  { split; [intros x []|]. split; [intros x l []|]. split; [intros x y lx ly []|intros x y lx ly z []]. }
-  destruct (peers_disjoint_history ct H1 H2 H3 H4 ops s roots [] Hok Hwf Hpd0) as (_ & _ & P3 & P4).
+  intros H1 H2 H3 H4 H5 H6 ops s roots Hok Hwf i j ci pi kwi fi cj pj kwj fj li lj Hi Hj Hne Ei Ej.
+  assert (Hpd0 : PD ct s roots []).
+  { split; [intros x []|]. split; [intros x l []|]. split; [intros x y lx ly []|]. split; [intros x y lx ly z []|intros x l []]. }
+  destruct (peers_disjoint_history ct H1 H2 H3 H4 H5 H6 ops s roots [] Hok Hwf Hpd0) as (_ & _ & P3 & P4 & _).
   pose proof (tracked_ctor ops (length roots) [] i ci pi kwi fi Hi) as Ti.
   pose proof (tracked_ctor ops (length roots) [] j cj pj kwj fj Hj) as Tj.
   assert (Hll : li <> lj) by (eapply (P3 (length roots + i) (length roots + j)); eauto; lia).
@@ -826,20 +969,24 @@ Proof.
   - split; [vm_compute; reflexivity|]. vm_compute. split; reflexivity.
 Qed.
 
-(* ... then, in place: del p.xs; p.with_n(4, _inplace=True); q.reset_x(_inplace=True) *)
+(* ... then, in place: del p.xs; p.with_n(4, _inplace=True); q.reset_x(_inplace=True);
+   q.transform_xs(lambda x: x + [6], _inplace=True); p.update_n(8, _inplace=True) *)
 Definition exp_ops2 : list (op * option nat) :=
   exp_ops ++
   [(OpDelAttr 1 50, None);
    (OpHelper 1 (HWith 51) (mkh [VInt 4] true true VMissing false None None [] None), None);
-   (OpHelper 2 (HReset 50) (mkh [] true true VMissing false None None [] None), None)].
+   (OpHelper 2 (HReset 50) (mkh [] true true VMissing false None None [] None), None);
+   (OpHelper 2 (HTransform 50) (mkh [] true true VMissing false None None [] (Some (FAppended (VInt 6)))), None);
+   (OpHelper 1 (HUpdate 51) (mkh [VInt 8] true true VMissing false None None [] None), None)].
 
 Example peers_disjoint_inplace_nonvacuous :
   ops_ok 1 [] exp_ops2 /\
   run_wfb exp_ct (mkst [OList [VInt 1]] 0 None) [VRef 0] exp_ops2 = true /\
   (let '(s', roots') := run_ops exp_ct (mkst [OList [VInt 1]] 0 None) [VRef 0] exp_ops2 in
-   roots' = [VRef 0; VRef 1; VRef 3; VNone; VRef 5; VRef 8; VNone; VRef 1; VRef 3] /\
-   nth_error (heap s') 1 = Some (OInst 2 [(50, VRef 10); (51, VInt 4)]) /\
-   nth_error (heap s') 3 = Some (OInst 2 [(50, VRef 11); (51, VInt 3)]) /\
+   roots' = [VRef 0; VRef 1; VRef 3; VNone; VRef 5; VRef 8; VNone; VRef 1; VRef 3; VRef 3; VRef 1] /\
+   nth_error (heap s') 1 = Some (OInst 2 [(50, VRef 10); (51, VInt 8)]) /\
+   nth_error (heap s') 3 = Some (OInst 2 [(50, VRef 12); (51, VInt 3)]) /\
+   nth_error (heap s') 12 = Some (OList [VInt 1; VInt 6]) /\
    nth_error (heap s') 0 = Some (OList [VInt 1])).
 Proof.
   split.
